@@ -3,6 +3,9 @@ import Solvor.Sched.Theorems
 #print axioms Solvor.Sched.dispatch_valid
 #print axioms Solvor.Sched.dispatch_chooser_valid
 #print axioms Solvor.Sched.dispatch_rule_valid
+#print axioms Solvor.Sched.rebuild_valid
+#print axioms Solvor.Sched.local_search_valid
+#print axioms Solvor.Sched.solve_job_shop_valid
 #print axioms Solvor.Sched.chkSchedule_iff
 #print axioms Solvor.Sched.isDispatchOf_sound
 #print axioms Solvor.Sched.vrp_inv_step
